@@ -146,7 +146,11 @@ def eq_msgs(a, b):
 
 def check_parse(c):
     lookup = LOOKUPS[c["lookup"]]
-    a = real(c["s"], c["timespan"], c["shift"], lookup, c["raise_stopped"])
+    if c.get("as_timedelta"):
+        from datetime import timedelta as _td
+        a = real(c["s"], _td(seconds=c["timespan"]), _td(seconds=c["shift"]), lookup, c["raise_stopped"])
+    else:
+        a = real(c["s"], c["timespan"], c["shift"], lookup, c["raise_stopped"])
     b = reference(c["s"], c["timespan"], c["shift"], lookup, c["raise_stopped"])
     if not eq_msgs(a, b):
         return f"parse({c['s']!r}, timespan={c['timespan']}, time_shift={c['shift']}, lookup={lookup!r}, raise_stopped={c['raise_stopped']}) = {a!r}; the documented syntax means {b!r}"
@@ -256,6 +260,8 @@ def main(argv):
             for rs in (False, True):
                 todo.append({"s": s, "timespan": 10, "shift": 0, "lookup": li, "raise_stopped": rs})
         todo.append({"s": s, "timespan": 0.5, "shift": 3.0, "lookup": 1, "raise_stopped": False})
+        # timedeltas count with their whole length (fractions and days included)
+        todo.append({"s": s, "timespan": 1.5, "shift": 86400 + 2.25, "lookup": 1, "raise_stopped": False, "as_timedelta": True})
         if len(s) <= min(max_len, 4):
             for src in ("from_marbles", "hot", "hot.datetime", "testing.cold", "testing.hot"):
                 todo.append({"s": s, "source": src})
